@@ -57,8 +57,49 @@ NOT_YET_PROVED = []
 # Generated layer for this property: re-extract the set_lsb0 tables / cache sizes / setter facts before the build
 # ---------------------------------------------------------------------------------------------------------------
 from harness import extract_C09 as _ext                                   # noqa: E402
-_GEN = _ext.extract(REPO)
-GEN_CHANGED = _ext.write(os.path.join(VERIF, "lean", "BitstringModel", "Gen"), _GEN)
+
+# The fresh-process reference (see `fresh_eval`) is a zygote forked HERE: the package has been imported and nothing
+# else has run (the extraction below already parses strings and flips options).  The zygote finishes importing this
+# module (it needs the functions below) and then serves requests instead of returning from the import.
+_Z = None
+_IS_ZYGOTE = False
+
+
+def _fork_zygote():
+    global _Z, _IS_ZYGOTE
+    if os.environ.get("VERIF_C09_NOFORK") == "1":
+        return
+    try:
+        p2c_r, p2c_w = os.pipe()
+        c2p_r, c2p_w = os.pipe()
+        sys.stdout.flush(); sys.stderr.flush()
+        pid = os.fork()
+    except Exception:
+        return
+    if pid == 0:
+        os.close(p2c_w); os.close(c2p_r)
+        _IS_ZYGOTE = True
+        _Z = (p2c_r, c2p_w)
+        return
+    os.close(p2c_r); os.close(c2p_w)
+    _Z = (pid, os.fdopen(p2c_w, "wb"), os.fdopen(c2p_r, "rb"))
+
+    def _stop():
+        try:
+            _Z[1].close()
+            os.waitpid(_Z[0], 0)
+        except Exception:
+            pass
+    atexit.register(_stop)
+
+
+_fork_zygote()
+if _IS_ZYGOTE:
+    _GEN = {"lsb0_methods": [], "msb0_methods": [], "sizes": []}
+    GEN_CHANGED = []
+else:
+    _GEN = _ext.extract(REPO)
+    GEN_CHANGED = _ext.write(os.path.join(VERIF, "lean", "BitstringModel", "Gen"), _GEN)
 
 from bitstring import bitstore_helpers as _bh, utils as _utils, dtypes as _dtypes, Dtype, Array   # noqa: E402
 
@@ -422,9 +463,6 @@ def _mutate(x, kind):
 # fresh-process reference: a zygote forked when this module is imported (nothing has run yet); for every request it
 # forks a child that sets the options ONCE and evaluates the listed calls, each on cleared caches.
 # ---------------------------------------------------------------------------------------------------------------
-_Z = None
-
-
 def _child_eval(req):
     """req: list of (opts, items), sorted by opts (lsb0 is the major key, so lsb0 is assigned at most once in this
     process); every call on cleared caches."""
@@ -469,35 +507,6 @@ def _zygote_loop(rfd, wfd):
         data = b"".join(chunks)
         w.write(_struct.pack("<I", len(data)) + data)
         w.flush()
-
-
-def _start_zygote():
-    global _Z
-    if os.environ.get("VERIF_C09_NOFORK") == "1":
-        return
-    try:
-        p2c_r, p2c_w = os.pipe()
-        c2p_r, c2p_w = os.pipe()
-        sys.stdout.flush(); sys.stderr.flush()
-        pid = os.fork()
-        if pid == 0:
-            try:
-                os.close(p2c_w); os.close(c2p_r)
-                _zygote_loop(p2c_r, c2p_w)
-            finally:
-                os._exit(0)
-        os.close(p2c_r); os.close(c2p_w)
-        _Z = (pid, os.fdopen(p2c_w, "wb"), os.fdopen(c2p_r, "rb"))
-
-        def _stop():
-            try:
-                _Z[1].close()
-                os.waitpid(_Z[0], 0)
-            except Exception:
-                pass
-        atexit.register(_stop)
-    except Exception:
-        _Z = None
 
 
 def fresh_eval_groups(groups):
@@ -639,7 +648,14 @@ def execute(line):
                     if key not in uniq:
                         uniq[key] = len(order); order.append((ops[i], operands[i]))
                 glist.append((o, order)); gmeta.append((idxs, uniq))
-            res = fresh_eval_groups(glist)
+            # one never-used process per option state: whatever is captured at first use is captured under that state
+            res = []
+            for g in glist:
+                r = fresh_eval_groups([g])
+                if r is None:
+                    res = None
+                    break
+                res.append(r[0])
             if res is None:
                 have_fresh = False
             else:
@@ -1284,6 +1300,17 @@ def targeted(rng, tier):
             for start in (0, 1):
                 s = "S|Bits|%s|%s" % (dep, text)
                 H(["O|%s|%d" % (opt, start), s, "O|%s|%d" % (opt, 1 - start), s, "O|%s|%d" % (opt, start), s])
+    # 0b. derive from a string through every route, mutate the result, construct again (short, unchained)
+    for cls in MUTABLE:
+        for route in ["", "!f", "!p", "!a"] + E_ROUTES_ANY + E_ROUTES_MUT:
+            for kind in ("invert", "setitem", "reverse"):
+                s = "S|%s%s|-|0xf0, uint:4=5" % (cls, route)
+                H([s, "M|0|%s" % kind, s, "S|Bits|-|0xf0, uint:4=5"])
+    # 0c. a list of format items, then each item alone (short, unchained)
+    for f1, v1 in (("uint:8", [5]), ("ue", [3]), ("hex:8, bin:2", ["ab", "01"]), (">h", [7])):
+        H(["P|-|%s|%s|{}" % (J([f1, f1]), J(v1 + v1)), "P|-|%s|%s|{}" % (J(f1), J(v1))])
+        H(["U|-|%s|%s|unpack|{}" % (J([f1, f1]), "1011001110001111010100110000111101011100"),
+           "U|-|%s|%s|unpack|{}" % (J(f1), "1011001110001111010100110000111101011100")])
     # 1. parse, flip, parse, flip back, parse — in both starting states, every class and route
     for cls in CLASS_NAMES:
         for route in ["", "!f", "!p", "!a"] + E_ROUTES_ANY + (E_ROUTES_MUT if cls in MUTABLE else []):
@@ -1439,4 +1466,8 @@ def search(rng):
     return gen(rng, "thorough")
 
 
-_start_zygote()
+if _IS_ZYGOTE:
+    try:
+        _zygote_loop(_Z[0], _Z[1])
+    finally:
+        os._exit(0)
